@@ -17,6 +17,7 @@ from ..core import rule
 from ..srcmodel import AnalysisError, walk_no_nested, unparse, norm_stmt
 from ..paths import enumerate_paths
 from .. import terms as T
+from .. import siblings as SB
 from .common import *
 
 CL = 'mystic.collapse'
@@ -442,3 +443,31 @@ def collapse_settings_forwarded_exactly(ctx):
                              for lits, app, p in res)
     ctx.check(good, '__collapse_constraints#CollapseCost', 'impose_bounds(collapse, clip=the condition\'s own clip, default True)',
               'CollapseCost no longer forwards its own clip flag', f, branches[ck[0]][0])
+
+
+@rule('C11.i', min_instances=5)
+def bounds_mask_filter(ctx):
+    """collapse_cost hands (results, mask) to interval_overlap and answers {} exactly when the filtered result equals the mask; that comparison is only meaningful because interval_overlap rewrites bare (lo,hi) entries of BOTH its arguments to [(lo,hi)] in place - the filter and its interval helpers keep their confirmed behaviour (reference summaries)"""
+    from .c11_refs import REFS
+    for a, src in sorted(REFS.items()):
+        f = ctx.func(a)
+        got = SB.summary(f.node, strict_casts=True)
+        want = SB.summary_of_source(src, strict_casts=True)
+        ctx.stats['terms_compared'] += len(got)
+        ctx.check(got == want, f.qualname, 'keeps its confirmed behaviour', '%s differs from its confirmed behaviour (the bounds mask is no longer filtered / normalised the same way): %s'
+                  % (f.qualname, SB.diff(got, want)), f, f.node)
+    g = ctx.func('mystic.collapse:collapse_cost')
+    mask = 'mask'
+    calls = calls_where(g.node, lambda c: callee_text(c).split('.')[-1] == 'interval_overlap', include_lambda=False)
+    ctx.need(calls, 'collapse_cost no longer calls interval_overlap')
+    c = calls[0]
+    good = len(c.args) >= 2 and isinstance(c.args[1], ast.Name) and c.args[1].id == mask
+    rets = [r for r in walk_no_nested(g.node) if isinstance(r, ast.Return) and r.value is not None and r.lineno > c.lineno]
+    cmp_ok = False
+    for r in rets:
+        for cl, leaf in T.cases(T.term(r.value)):
+            for cond, tr in cl:
+                if cond[0] == 'cmp' and cond[1] == '==' and ('name', mask) in (cond[2], cond[3]) and tr and leaf == ('dict',):
+                    cmp_ok = True
+    ctx.check(good and cmp_ok, 'collapse_cost#mask', 'the caller\'s mask itself goes through interval_overlap (normalised in place) before `results == mask` decides "nothing new"',
+              'collapse_cost no longer filters through interval_overlap(results, mask) before comparing with the mask', g, c)
